@@ -234,6 +234,21 @@ def r19_5_7(ctx: Ctx):
               key=f'{rid}::depq-signature')
     insf = q.lookup('Insert')
     for p in C.normal_paths(ctx.explorer().explore(insf)):
+        stores_ = [ev for ev in p.events if ev.kind == 'call' and ev.d.get('ext') and
+                   ev.d['name'] in ('insert', 'addfirst', 'addlast')]
+        if not stores_:
+            # a path that drops the entry: only sound when the decision is taken against the queue's *current*
+            # lowest priority, read from the queue in this very call
+            keyv = var(insf.param_names[1])
+            lows = [ev for ev in p.events if ev.kind == 'call' and ev.d.get('ext') and ev.d['name'] in ('low',)]
+            fresh = any(l.kind == 'cmp' and C.mentions(l.rf, key_of(keyv)) and
+                        any(C.mentions(l.rf, key_of(lo.d['result'])) for lo in lows) for l in p.guards)
+            ctx.check(fresh, rid, insf.short, insf.loc(),
+                      'an entry is skipped only against the queue\'s current lowest priority',
+                      f'a path of {insf.short} returns without inserting the entry (guards: '
+                      f'{[repr(g) for g in p.guards][:3]}) and the decision is not taken against the current lowest '
+                      f'priority of the queue: a bounded queue then fails to retain the highest-priority entries',
+                      key=f'{rid}::{insf.short}::entry-dropped')
         for ev in p.events:
             if ev.kind == 'call' and ev.d.get('ext') and ev.d['name'] in ('insert', 'addfirst', 'addlast'):
                 a, kw = ev.d['args'], ev.d['kwargs']
